@@ -53,6 +53,7 @@ import GM.Proof.ConvertFOnce
 import GM.Proof.ConvertFLinks
 import GM.Proof.ConvertFFiled
 import GM.Proof.ConvertFNoPre
+import GM.Proof.ConvertFAnchor
 
 namespace GM.Props.C16E2E
 open GM GM.Text GM.Convert GM.ConvertF
@@ -261,6 +262,29 @@ theorem footnotes_all_filed : FootnotesAllFiled :=
     a definition of the list. With `shape_always_ok` and `convertf_footnotes_consistent_unconditional`: C16 end to end for
     every byte string with no footnote monitor left in the way. -/
 theorem monitors_never_fire : MonitorsNeverFire := monitors_never_fire_of footnotes_all_filed
+
+/-- **A provable part of `BlockNoLoopF`: the ancestor loop of `(*footnoteBlockParser).Close` has enough fuel** (footnote.go:96-100,
+    `anchorLoop` with fuel `len + 1`) for every node whose parent-pointer chain reaches node 0 of a tree-shaped store: the nodes
+    on the chain exist and are pairwise different (node 0 has no parent, so a node has one depth), so there are at most `len`
+    of them. -/
+theorem convertf_anchor_loop_terminates (f : FS) (s : GM.Blocks.St) (w : GM.ConvertH.TreeWF s) (d x : Nat)
+    (hx : x < s.nodes.length) (hd : anc s d x = some 0) :
+    (anchorLoop f s.nodes (s.nodes.length + 1) (GM.ConvertH.ndx s x).parent x).isSome = true :=
+  anchorLoop_terminates f s w d x hx hd
+
+/-- … hence **`Close` of such a Footnote never answers `loop`** (its other outcomes: normal end, `nil`). -/
+theorem convertf_close_no_loop_of_reach (node d : Nat) (f : FS) (s : GM.Blocks.St) (w : GM.ConvertH.TreeWF s)
+    (hv : node < s.nodes.length) (hd : anc s d node = some 0) (e : Panic) (h : fnClose node f s = .error e) : e ≠ .loop :=
+  fnClose_noLoop node d f s w hv hd e h
+
+/-- FULL STATEMENT (not proved): the invariant that would finish the `anchorLoop` part of `BlockNoLoopF` — whenever the block
+    driver calls `Close` on a block, the parent-pointer chain of its node reaches node 0. `TreeWF` relates child edges to parent
+    pointers in one direction only; what is missing is a parent-pointer frame fact for every parser function and mutator (which
+    pointers are set: `ins ↦ p` for a node it has created, `c ↦ none`). Stated for the final store (where it is a consequence of
+    every attached node's chain being backed by child edges): every node that is somebody's child reaches node 0. -/
+def AttachedNodesReachRoot : Prop :=
+  ∀ (guard : Bool) (src : Bytes) (f : FS) (st : GM.Blocks.St), blockPhaseF true guard src = .ok (f, st) →
+    ∀ p c, c ∈ (GM.ConvertH.ndx st p).children → ∃ d, anc st d c = some 0
 
 /-- FULL STATEMENT (not proved; a C01 fact of the extension, not a monitor): the children of the FootnoteList are
     `*ast.Footnote`s — the type assertion `footnote.(*ast.Footnote)` of the AST transformer (footnote.go:251; the model's
